@@ -1,5 +1,6 @@
 """C19 — rectifiers and envelope follower (DESIGN.md §6 C19)."""
 from vlib.kani import run_kani
+from vlib.vunit import run_unit, build_search
 
 
 def run(ctx):
@@ -13,8 +14,19 @@ def run(ctx):
                        'from the between-ness clause and is not separately proved')
     ctx.notes.append('full_wave / positive_half_wave / negative_half_wave and the three Rectifier types for all 14 formats over the '
                      'full sample domain, on the bare-sample frame and per channel on a 2-channel frame (C03 proves map for every N)')
+    ctx.bounded.append('BOUNDED: the detect_envelope adaptor feeds each of 3 symbolic source frames exactly once and in order to its '
+                       'detector (outputs and final detector state bit-equal to a directly driven Detector, set_release_frames mid-stream '
+                       'included; pull count; exhaustion is the source\'s)')
     ctx.extra['exhaustive'] = True
+    # adaptor clause, unbounded: DetectEnvelope::next pulls exactly one source frame per output and yields what its detector
+    # returns for it (Verus unit envadapt; the detector is a contract-only abstract state machine there)
+    ctx.add_trusted('Verus 0.2026.09.13 + Z3 for unit envadapt (Signal trait contract of C04; Detector as an assumed abstract state machine)')
+    run_unit(ctx, 'envadapt', search_crate='signal')
     run_kani(ctx, 'peak', harness=['c19_'], harness_timeout='8m')
-    env = ['c19_zero_time', 'c19_between', 'c19_set_times', 'c19_gain_mapping', 'c19_per_channel_gain'] + (['c19_t_'] if ctx.tier == 'thorough' else [])
+    env = ['c19_zero_time', 'c19_between', 'c19_set_times', 'c19_gain_mapping', 'c19_per_channel_gain', 'c19_adaptor_detect_envelope'] + (['c19_t_'] if ctx.tier == 'thorough' else [])
     run_kani(ctx, 'envelope', harness=env, rustflags='--cfg rustaudio_dasp_verif', harness_timeout='20m',
              soft_timeout=(ctx.tier == 'thorough'))
+
+
+def prepare_replay(rec):
+    build_search('signal')
